@@ -113,3 +113,14 @@ add('C08',
     min_counters={'exhaustive_histories': 100000, 'random_histories': 100, 'remove_role_1': 1000, 'remove_role_2': 1000, 'remove_role_3': 1000, 'remove_role_4': 1000},
     assumptions=['structural roles of removal targets are read from the public hook fields; the oracle itself uses only top()/empty()/pop()/remove()'],
     )
+
+# ---------------------------------------------------------------------------------------------- C09
+add('C09',
+    level='exploration',
+    rule='insert/find_or_insert/find/erase/re-insert histories on rcu_radixtree vs std::map: all arrival orders of key sets (size 3-5, 6 in thorough) from an adversarial pool (first difference at each of the 16 nibbles, dense leaf runs, 0, 2^64-1), random histories to 4000 (20000) operations; UBSan armed for the shift arithmetic',
+    jobs=[job('radix', 'c09_radix.cpp', args=['--arg', 'prop=C09'], shards={'quick': 8, 'thorough': 16}, hang_is_violation=True)],
+    min_evaluations={'quick': 3000, 'thorough': 50000},
+    min_counters={'exhaustive_orders': 2000, 'random_histories': 100, 'iterations': 10000, 'finds': 100000},
+    assumptions=['std::map<uint64_t,(address,version)> is the reference; values carry (key, version) so a find identifies the insertion it observed'],
+    )
+C16_JOBS.append(job('radix', 'c09_radix.cpp', args=['--arg', 'prop=C16'], shards={'quick': 4, 'thorough': 8}, hang_is_violation=True))
